@@ -66,6 +66,7 @@ func checkC20(c *Ctx, r *Report) {
 	copyKeepsType(c, r, "C20.R3.copy-type")
 	sliceLengthsCompared(c, r, "C20.R1.list-lengths")
 	headerNameOnlyCompared(c, r, "C20.R2.header-name")
+	round12(c, r, "C20")
 }
 
 // c20R5: sort.Slice(x, less): the less closure indexes x and nothing else with its two index parameters
